@@ -36,6 +36,12 @@ def run(tier):
         steps, mods = feat_repl.host_history(r2.fork(str(i)))
         plist.append({"name": "host/%d" % i, "steps": steps, "mods": mods})
 
+    r5 = ck.rng.fork("long")
+    for i in range(40 if quick else 1500 * common.TS):
+        steps, mods = feat_repl.long_history(r5.fork(str(i)))
+        plist.append({"name": "long/%d" % i, "steps": steps, "mods": mods, "budget": 6000000})
+        ck.count("long_history_snippets", len(steps))
+
     def seen(p, m, res):
         fails = sum(1 for s in m["view"] if s.get("res") in ("error", "compile_error"))
         ck.count("snippets_run", len(m["view"]))
